@@ -8,7 +8,10 @@
 (* `const` (must compile, run and show the written value).                          *)
 EXTENDS Ast, TLC, Json
 
-Decls == {"mod", "mod_typed", "mod_unpack", "mod_redecl", "fn", "block", "list", "obj", "objlist", "opt", "class_name", "import_mod", "export_member", "mod_libname"}
+Decls == {"mod", "mod_typed", "mod_unpack", "mod_redecl", "fn", "block", "list", "obj", "objlist", "opt", "class_name", "import_mod", "export_member", "alias_member", "mod_libname"}
+\* ("const_field" - `const q: int` in a class body - is modelled below but not enumerated: the property quantifies over names
+\*  declared at module level / in a function / in a block / as class / as import; the compiler parses the flag of a field and
+\*  ignores it.  See DESIGN section 13, observations outside the properties.)
 Forms == {"assign", "typed", "add", "sub", "mul", "div", "rem", "unwrap", "modify", "index", "index_add", "field", "field_add",
           "counter", "unpack", "unpack1", "paren_field_index_add", "paren_index_field_mul", "import_mod"}
 Contexts == {"same", "block", "nested_fn", "method", "loop_body"}
@@ -27,6 +30,8 @@ IsWrite(decl, form, ctx) ==
          [] decl = "class_name" -> form \in {"assign"}
          [] decl = "import_mod" -> form \in {"assign"}
          [] decl = "export_member" -> form \in {"field", "field_add"}
+         [] decl = "const_field" -> form \in {"field", "field_add"}           \* `const q: int` in a class body, written as `kf.q = 9` from outside
+         [] decl = "alias_member" -> form \in {"field", "field_add"}          \* `m = lib` and then `m.kk = 9`: the module through another name
     \* a plain / typed assignment, a loop counter or an unpacking inside a nested function or method declares a new local:
     \* only `modify`, op-assignment and index / field assignment reach the outer binding from there
     /\ ctx \in {"nested_fn", "method"} => form \in {"modify", "add", "sub", "mul", "div", "rem", "index", "index_add", "field", "field_add",
@@ -40,7 +45,8 @@ IsWrite(decl, form, ctx) ==
     \* the parser reads `[` as an index)
     /\ form \in {"unpack", "unpack1"} => ctx \in {"block", "loop_body"}
     /\ decl \in {"fn", "block"} => ctx \in {"same", "block", "loop_body", "nested_fn"}
-    /\ decl \in {"class_name", "import_mod", "export_member"} => ctx \in {"same", "block"}
+    /\ decl \in {"class_name", "import_mod", "export_member", "alias_member"} => ctx \in {"same", "block"}
+    /\ decl = "const_field" => ctx \in {"same", "block", "nested_fn"}
     /\ decl = "mod_libname" => ctx \in {"same", "block", "loop_body"}
 
 Triples == {t \in [decl : Decls, form : Forms, ctx : Contexts] : IsWrite(t.decl, t.form, t.ctx)}
@@ -58,7 +64,7 @@ Paren(e) == [k |-> "paren", e |-> e]
 
 Name == CASE t.decl \in {"mod", "mod_typed", "mod_unpack", "mod_redecl", "fn", "block"} -> "x" [] t.decl = "list" -> "xs" [] t.decl = "obj" -> "p"
           [] t.decl = "objlist" -> "ps"
-          [] t.decl = "opt" -> "o" [] t.decl = "class_name" -> "P" [] t.decl \in {"import_mod", "export_member", "mod_libname"} -> "lib"
+          [] t.decl = "opt" -> "o" [] t.decl = "class_name" -> "P" [] t.decl \in {"import_mod", "export_member", "mod_libname"} -> "lib" [] t.decl = "alias_member" -> "m" [] t.decl = "const_field" -> "kf"
 
 Declare(c) ==
     CASE t.decl \in {"mod", "fn", "block"} -> <<LetC("x", "", I(5), c)>>
@@ -71,6 +77,10 @@ Declare(c) ==
       [] t.decl = "objlist" -> <<LetC("ps", "[P...]", List(<<New("P", <<>>)>>), c)>>
       [] t.decl = "mod_libname" -> <<LetC("lib", "", I(5), c)>>
       [] t.decl = "opt" -> <<LetC("o", "int?", I(5), c)>>
+      [] t.decl = "alias_member" -> <<Let("m", V("lib"))>>
+      [] t.decl = "const_field" -> <<[k |-> "class", n |-> "KF", export |-> FALSE, fields |-> <<[n |-> "q", ty |-> "int", const |-> c]>>,
+                                      ctor |-> <<[ps |-> <<>>, b |-> <<Assign(Fld(Self, "q"), "=", I(1))>>]>>, methods |-> <<>>],
+                                     Let("kf", New("KF", <<>>))>>
       [] OTHER -> <<>>
 
 OpOf(f) == CASE f \in {"add", "index_add", "field_add"} -> "+" [] f = "sub" -> "-" [] f = "mul" -> "*" [] f = "div" -> "/" [] f = "rem" -> "%"
@@ -82,8 +92,8 @@ WriteStmts ==
       [] t.form = "modify" -> <<Modify(Name, CASE t.decl = "list" -> List(<<I(7)>>) [] t.decl = "obj" -> New("P", <<>>) [] OTHER -> I(7))>>
       [] t.form = "index" -> <<Let("k0", I(0)), Assign(Idx(V(Name), V("k0")), "=", I(9))>>
       [] t.form = "index_add" -> <<Let("k0", I(0)), Assign(Idx(V(Name), V("k0")), "+", I(8))>>
-      [] t.form = "field" -> <<Assign(Fld(V(Name), IF t.decl = "export_member" THEN "kk" ELSE "v"), "=", I(9))>>
-      [] t.form = "field_add" -> <<Assign(Fld(V(Name), IF t.decl = "export_member" THEN "kk" ELSE "v"), "+", I(8))>>
+      [] t.form = "field" -> <<Assign(Fld(V(Name), CASE t.decl \in {"export_member", "alias_member"} -> "kk" [] t.decl = "const_field" -> "q" [] OTHER -> "v"), "=", I(9))>>
+      [] t.form = "field_add" -> <<Assign(Fld(V(Name), CASE t.decl \in {"export_member", "alias_member"} -> "kk" [] t.decl = "const_field" -> "q" [] OTHER -> "v"), "+", I(8))>>
       \* (a statement that starts with `(` must be the first of its block: after an expression the parser reads a call)
       [] t.form = "paren_field_index_add" -> <<Let("k0", I(0)), If(Bin("==", V("k0"), I(0)), <<Assign(Idx(Paren(Fld(V("p"), "ws")), V("k0")), "+", I(8))>>)>>
       [] t.form = "paren_index_field_mul" -> <<Let("k0", I(0)), If(Bin("==", V("k0"), I(0)), <<Assign(Fld(Paren(Idx(V("ps"), V("k0"))), "v"), "*", I(6))>>)>>
@@ -98,7 +108,8 @@ Shown == CASE t.decl = "list" -> <<Print(V("xs"))>>
            [] t.decl = "mod_libname" -> <<>>
            [] t.decl = "opt" -> <<Print(Bin("==", V("o"), I(7)))>>
            [] t.decl \in {"class_name", "import_mod"} -> <<>>
-           [] t.decl = "export_member" -> <<Print(Fld(V("lib"), "kk"))>>
+           [] t.decl \in {"export_member", "alias_member"} -> <<Print(Fld(V("lib"), "kk"))>>
+           [] t.decl = "const_field" -> <<Print(Fld(V("kf"), "q"))>>
            [] OTHER -> <<Print(V("x"))>>
 
 InContext(ws) ==
@@ -114,17 +125,17 @@ Core(c) == Declare(c) \o InContext(WriteStmts) \o Shown
 MainBody(c) ==
     <<Print(S("START")), Let("one", I(1))>>
     \o (IF t.decl \in {"obj", "objlist", "class_name"} THEN <<PClass>> ELSE <<>>)
-    \o (IF t.decl \in {"import_mod", "export_member"} THEN <<[k |-> "import", form |-> "mod", path |-> "lib", names |-> <<>>]>> ELSE <<>>)
+    \o (IF t.decl \in {"import_mod", "export_member", "alias_member"} THEN <<[k |-> "import", form |-> "mod", path |-> "lib", names |-> <<>>]>> ELSE <<>>)
     \o (CASE t.decl = "fn" -> <<Let("f", Fn("f", <<>>, "int", Core(c) \o <<Ret(I(0))>>)), ExprS(Call(V("f"), <<>>))>>
           [] t.decl = "block" -> <<If(Bin("==", V("one"), I(1)), Core(c))>>
           [] OTHER -> Core(c))
     \o <<Print(S("END"))>>
 LibBody(c) == <<[k |-> "let", n |-> "kk", ty |-> "int", e |-> I(1), mod |-> FALSE, const |-> FALSE, export |-> TRUE]>>
-Project(c) == IF t.decl \in {"import_mod", "export_member", "mod_libname"}
+Project(c) == IF t.decl \in {"import_mod", "export_member", "alias_member", "mod_libname"}
               THEN [entry |-> 1, mods |-> <<[name |-> "main", body |-> MainBody(c)], [name |-> "lib", body |-> LibBody(c)]>>]
               ELSE [body |-> MainBody(c)]
 (* class names, imported modules and their members have no mutable twin *)
-HasTwin == t.decl \notin {"class_name", "import_mod", "export_member", "mod_libname"} /\ t.form \notin {"unpack", "unpack1"}
+HasTwin == t.decl \notin {"class_name", "import_mod", "export_member", "alias_member", "mod_libname"} /\ t.form \notin {"unpack", "unpack1"}
 
 EmitCase == PrintT("CASE " \o ToJson([t |-> t, const_enabled |-> WriteEnabled(TRUE), twin_enabled |-> WriteEnabled(FALSE),
                                        has_twin |-> HasTwin, prog |-> Project(TRUE), twin |-> Project(FALSE)]))
